@@ -25,6 +25,8 @@ type Field struct {
 	KeyKind string `json:"key,omitempty"`   // for maps
 	Ref     string `json:"ref,omitempty"`   // type reference as written in the file
 	JSON    string `json:"json,omitempty"`  // explicit json_name option
+	// Unpacked: a repeated numeric field declared [packed = false] (proto3 packs them by default)
+	Unpacked bool `json:"unpacked,omitempty"`
 }
 
 type EnumVal struct {
@@ -104,8 +106,13 @@ func renderMsg(b *strings.Builder, ind string, m Msg) {
 			ty = f.Ref
 		}
 		opt := ""
-		if f.JSON != "" {
+		switch {
+		case f.JSON != "" && f.Unpacked:
+			opt = fmt.Sprintf(" [json_name = %q, packed = false]", f.JSON)
+		case f.JSON != "":
 			opt = fmt.Sprintf(" [json_name = %q]", f.JSON)
+		case f.Unpacked:
+			opt = " [packed = false]"
 		}
 		switch f.Label {
 		case "repeated":
@@ -169,6 +176,7 @@ type GenOpts struct {
 	BigNumbers   bool     // allow field numbers up to 70000
 	OnlyStrIntKV bool     // restrict map keys to string/int32/int64 (the subset generic path lookup can address)
 	KeyKinds     []string // allowed map key kinds (default: every legal kind)
+	Unpacked     bool     // a quarter of the repeated numeric fields are declared [packed = false]
 }
 
 // SupportedKeyKinds is the map-key subset the properties name as supported: map<int*|uint*|string, ...>.
@@ -292,6 +300,9 @@ func GenSchema(t *rapid.T, o GenOpts) Schema {
 			case lc < 5:
 			case lc < 8 && !o.NoRepeated:
 				f.Label = "repeated"
+				if o.Unpacked && f.Kind != "string" && f.Kind != "bytes" && f.Kind != "message" && rapid.IntRange(0, 3).Draw(t, "unpacked") == 0 {
+					f.Unpacked = true
+				}
 			case lc >= 8 && !o.NoMaps:
 				f.Label = "map"
 				if len(o.KeyKinds) > 0 {
